@@ -112,9 +112,19 @@ def run(scn):
     S = sim.S
     cyc = 0
     quiet = 0
+    # progress watchdog: nothing accepted at the input and nothing delivered at the output for longer than the longest stall of the
+    # scenario plus a generous service time -> the run is stuck; it only shortens runs that would otherwise spin to the cap
+    stall_cap = 4000 + 4 * max([a + b for a, b in pats] + [0]) + 2 * max(delays + [0]) + 20 * (max(mw.get("extra") or [0]) + max(mr.get("extra") or [0]))
+    prog, prog_cyc = None, 0
     while cyc < cap:
         sim.step()
         cyc += 1
+        if cyc % 64 == 0:
+            pr = (drv.n, len(out))
+            if pr != prog:
+                prog, prog_cyc = pr, cyc
+            elif cyc - prog_cyc > stall_cap:
+                break
         lv = S[i_level]
         if lv > stats["max_level"]:
             stats["max_level"] = lv
